@@ -9,7 +9,7 @@ same function (same obligations at every nesting level, by induction).
 (no import) the load path contains no import statement / __import__ / importlib / eval / exec / compile and looks the class up through
 sys.modules[...] and getattr only (syntactic frame over the real ASTs, transitive over the repo functions it calls).
 (synthetic class) KeyError/AttributeError during the lookup, or exc_module None, yield create_exception_cls(exc_type, <module name>)."""
-import ast
+import ast, re
 from z3 import *
 from pyvc.core import *
 
@@ -127,6 +127,7 @@ def generate(src):
             if h is None:
                 self.unmodelled.add(name)
                 def opaque_call(ex_, st_, e, r, a, kw, k, K):
+                    approx(st_, f"call of {name} on the load path has no contract (modelled as: returns anything, may raise any Exception)")
                     ok = st_.fork(); k(ok, fresh('unmodelled')); f = st_.fork(); K['exc'](f, raise_any(f, 'Exception'))
                 return opaque_call
             return h
@@ -215,9 +216,12 @@ def generate(src):
              'cls', 'exc.restore', 'type', 'getmro', 'inspect.getmro', 'takewhile', 'itertools.takewhile', 'tuple', 'list', 'len', 'str', 'repr', 'reversed', 'iter', 'next',          # pure builtins / stdlib helpers
              *dyn_names,          # local variables that are called: each such site carries a proved call-target obligation (h_dynamic)
              'create_exception_cls(self.exc_cls_name, self.exc_module)', 'validate_call', 'pydantic.ConfigDict'}          # the last two: the @validate_call decorator (TRUSTED)
+    callees = [c for c in callees if not re.match(r"^(logger|logging|log|_?LOGGER)\.\w+$", c)]          # logging calls: no-ops for this property
     sf = State()
     oblige(sf, "load path/frame: no import statement, __import__, importlib, eval, exec or compile anywhere on the load path  [C20]", BoolVal(not any(banned(fd) for fd in load_path.values())), witness={})
-    oblige(sf, "load path/frame: every callee on the load path is accounted for (gate-protected dynamic call, repo function under contract, or a pure builtin)  [C20]", BoolVal(set(callees) <= known))
+    sfu = State()
+    if not set(callees) <= known: approx(sfu, "callees without a contract on the load path: " + ", ".join(sorted(set(callees) - known))[:300])          # not provably harmless, not provably harmful: undecided, the native gate driver decides
+    oblige(sfu, "load path/frame: every callee on the load path is accounted for (gate-protected dynamic call, repo function under contract, or a pure builtin)  [C20]", BoolVal(set(callees) <= known))
     subs = [ast.unparse(n) for fd_ in load_path.values() for n in ast.walk(fd_) if isinstance(n, ast.Subscript) and isinstance(n.value, ast.Attribute) and ast.unparse(n.value).startswith('sys.')]
     oblige(sf, "load path/frame: modules are only looked up in sys.modules (never loaded)  [C20]", BoolVal(all(s_.startswith('sys.modules[') for s_ in subs) and len(subs) >= 1))
     return {'exits': dict(exits), 'dynamic_call_sites': sorted(set(dyn_calls)), 'load_path_callees': callees}
